@@ -63,8 +63,14 @@ impl Family for C05Family {
                     OpKind::MakeCredential(s) => s.exclude = gen_list(&mut r, 3),
                     _ => {}
                 }
+                if r.chance(1, 4) {
+                    op.unknown_type = (0..4).map(|_| r.bool()).collect();
+                    if r.chance(1, 3) {
+                        op.unknown_type = vec![true; 4];
+                    }
+                }
                 if faulty && r.chance(1, 3) {
-                    op.faults.push(Fault { seam: SeamKind::Find, nth: 0, status: *r.pick(&[0x2E, 0x7F, 0x01, 0x28]) });
+                    op.faults.push(Fault { seam: SeamKind::Find, nth: 0, status: *r.pick(&[0x2E, 0x7F, 0x01, 0x28]), sticky: false });
                 }
             }
         }
@@ -76,7 +82,7 @@ impl Family for C05Family {
         let c = ceremony_of(scn);
         let rec = run_and_measure(c, stats);
         let mut j = Judge::new("C05", scn, &rec);
-        for p in ["allow_list_names_other_rp_credential", "allow_list_all_misses", "empty_allow_list", "exclude_hit", "exclude_names_other_rp_credential", "shipped_lookup_without_ids", "shipped_lookup_with_ids", "shipped_store_holds_two_rps"] {
+        for p in ["allow_list_of_unknown_type_descriptors", "eligible_credential_with_consent", "allow_list_names_other_rp_credential", "allow_list_all_misses", "empty_allow_list", "exclude_hit", "exclude_names_other_rp_credential", "shipped_lookup_without_ids", "shipped_lookup_with_ids", "shipped_store_holds_two_rps"] {
             stats.declare_probe(p);
         }
         if rec.panic.is_some() || rec.outcome != Outcome2::Done {
@@ -102,6 +108,33 @@ impl Family for C05Family {
                     }
                     if !l.is_empty() && !l.iter().any(held_for_rp) {
                         stats.probe("allow_list_all_misses");
+                    }
+                }
+                if o.resolved.allow.as_ref().is_some_and(|l| !l.is_empty() && (0..l.len()).all(|i| spec.unknown_type.get(i).copied().unwrap_or(false))) {
+                    stats.probe("allow_list_of_unknown_type_descriptors");
+                }
+                // an eligible credential and a consenting user: the ceremony selects it
+                if !shipped && scn.batch == "strict" && c.actors.len() == 1 && spec.faults.is_empty() && spec.cancel_after.is_none() {
+                    let allow = o.resolved.allow.as_ref().filter(|l| !l.is_empty());
+                    let eligible = o.before.iter().filter(|s| s.rp_id == rp && allow.is_none_or(|l| l.contains(&s.id))).count();
+                    let mut asked = None;
+                    let mut consent = false;
+                    for e in rec.events_of(o.actor, o.idx) {
+                        match &e.ev {
+                            Ev::UserCall { up, uv, .. } => asked = Some((*up, *uv)),
+                            Ev::UserRet { result: Ok((p, v)) } => {
+                                if let Some((up, uv)) = asked {
+                                    consent = (!up || *p) && (!uv || *v);
+                                }
+                            }
+                            _ => {}
+                        }
+                    }
+                    if eligible > 0 && consent {
+                        stats.probe("eligible_credential_with_consent");
+                        if o.result.is_err() {
+                            j.fail("eligible-not-used", format!("op a{}#{}: the store holds {eligible} credential(s) for {rp:?} eligible under the allow list {:?} and the user consented, but the result is {}", o.actor, o.idx, o.resolved.allow.as_ref().map(|l| l.len()), short_result(&o.result)));
+                        }
                     }
                 }
                 if o.result.is_ok() {
